@@ -134,7 +134,8 @@ def parseTFee (bps mx : String) : Option (Option TFee) := do
     current state (read-only); vault balances as the fixture funds them (capped at u64::MAX / 4) -/
 def xswapLine (s : HistState) (t : List String) : Option String :=
   match t with
-  | [ver, amount, thrMode, limit, ein, dir, bA, mA, _fA, bB, mB, _fB] => do
+  | [ver, amount, thrMode, limit, ein, dir, bA, mA, _fA, bB, mB, _fB, te] => do
+    let te ← (if te == "1" then some true else if te == "0" then some false else none)
     let ver ← ver.toNat?
     let amount ← amount.toNat?
     let thrMode ← thrMode.toNat?
@@ -155,7 +156,9 @@ def xswapLine (s : HistState) (t : List String) : Option String :=
       | .ok r, 1 => if ein then r.userOut else r.userIn
       | .ok r, 2 => if ein then min (r.userOut + 1) U64_MAX else r.userIn - 1
       | _, _ => if ein then 0 else U64_MAX
-    match (if arrays.isEmpty then .error .InvalidTickArraySequence else run thr) with
+    match (if arrays.isEmpty then .error .InvalidTickArraySequence
+           else if te && s.af.isSome then .error .TradeIsNotEnabled   -- the Oracle says trading starts later
+           else run thr) with
     | .error e => pure ("err " ++ e.name)
     | .ok r =>
       if r.userIn > cap then pure "err Code(1)"             -- the trader's token account holds u64::MAX / 4
